@@ -157,9 +157,13 @@ def _run(case):
             add('segment_area', z3.BoolVal(float(g('segment_area'))
                                            == len(pix)))
             # pixels that define the (detection-image based) shape quantities
+            # (documented: non-finite data values are always masked, also
+            # for the convolved data; a detection catalog has its own data)
             Gm = [(y, x) for y, x in pix
                   if not (mask is not None and mask[y, x])
-                  and not bool(mom_src[y, x].isnan())]
+                  and not bool(mom_src[y, x].isnan())
+                  and (case.get('detcat')
+                       or not bool(data[y, x].isnan()))]
 
             def isnan_(v):
                 return bool(v.isnan()) if isinstance(v, SymReal) else \
@@ -502,7 +506,8 @@ def replay(f):
                        background_sum=sum(b[p_] for p_ in G))
             Gm = [(y, x) for y, x in zip(ys, xs)
                   if not (mask is not None and mask[y, x])
-                  and np.isfinite(src[y, x])]
+                  and np.isfinite(src[y, x])
+                  and (p['detcat'] or np.isfinite(d[y, x]))]
             vm = np.array([max(src[p_], 0.0) for p_ in Gm])
             if vm.sum() != 0:
                 exp['xcentroid'] = sum(x * q for (y, x), q in
